@@ -155,6 +155,18 @@ enum ComV {
 	SplitRecipientOutput,
 }
 
+/// a deviating recipient: complete replies whose signatures are all valid for the ALTERED value, which the
+/// reply also states in its own fee / amount field (two cooperating alterations)
+#[derive(Clone, Copy, Debug, PartialEq, Serialize, Deserialize)]
+enum DisV {
+	/// signs for the agreed fee with a fee shift, reply states that fee
+	FeeShift,
+	/// signs for a higher fee taken out of its own output, reply states that fee
+	FeeRaised,
+	/// signs the payment proof over another amount, reply states that amount
+	AmountClaimed,
+}
+
 #[derive(Clone, Copy, Debug, PartialEq, Serialize, Deserialize)]
 enum Mu {
 	Amount(AmtV),
@@ -170,6 +182,7 @@ enum Mu {
 	Com(ComV),
 	Proof(PAlt),
 	ProofAddUnrequested,
+	Dishonest(DisV),
 }
 
 fn alphabet() -> Vec<Mu> {
@@ -236,6 +249,9 @@ fn alphabet() -> Vec<Mu> {
 		v.push(Mu::Proof(p));
 	}
 	v.push(Mu::ProofAddUnrequested);
+	for d in [DisV::FeeShift, DisV::FeeRaised, DisV::AmountClaimed].iter() {
+		v.push(Mu::Dishonest(*d));
+	}
 	v
 }
 
@@ -298,15 +314,25 @@ fn flip_sig(s: &Signature, byte: usize) -> Signature {
 /// excess, offset, nonce and a valid partial signature (and a valid proof signature when requested).
 /// Every signature in it verifies; the transaction it leads to weighs more than the agreed fee covers.
 fn split_reply(v: &SlateV4, first: &SlateV4, pe: &PEnv, amount: u64, fee: FeeFields) -> Option<SlateV4> {
+	let v1 = amount / 2;
+	resigned_reply(v, first, pe, &[v1, amount - v1], fee, amount)
+}
+
+/// A complete, internally consistent reply built by a deviating recipient: it pays `outs` into outputs of
+/// its own, signs the kernel message for `sig_fee`, and (when a proof was requested) signs the payment
+/// proof over `proof_amount`. Every signature in it verifies under those values.
+fn resigned_reply(v: &SlateV4, first: &SlateV4, pe: &PEnv, outs: &[u64], sig_fee: FeeFields, proof_amount: u64) -> Option<SlateV4> {
 	use crate::core::libtx::{aggsig, build, ProofBuilder};
 	use crate::util::secp::key::PublicKey;
 	let kc = keychain_for(&pe.recipient.0);
 	let secp = kc.secp();
 	let builder = ProofBuilder::new(&kc);
-	let k1 = crate::keychain::ExtKeychain::derive_key_id(3, pe.recipient.1, 0, 900, 0);
-	let k2 = crate::keychain::ExtKeychain::derive_key_id(3, pe.recipient.1, 0, 901, 0);
-	let v1 = amount / 2;
-	let (tx, bf) = build::partial_transaction(Slate::empty_transaction(), &[build::output(v1, k1), build::output(amount - v1, k2)], &kc, &builder).ok()?;
+	let elems: Vec<_> = outs
+		.iter()
+		.enumerate()
+		.map(|(i, val)| build::output(*val, crate::keychain::ExtKeychain::derive_key_id(3, pe.recipient.1, 0, 900 + i as u32, 0)))
+		.collect();
+	let (tx, bf) = build::partial_transaction(Slate::empty_transaction(), &elems, &kc, &builder).ok()?;
 	let xr = SecretKey::new(secp, &mut rand::thread_rng());
 	let kr = aggsig::create_secnonce(secp).ok()?;
 	let off = kc.blind_sum(&BlindSum::new().add_blinding_factor(bf).sub_blinding_factor(BlindingFactor::from_secret_key(xr.clone()))).ok()?;
@@ -315,7 +341,7 @@ fn split_reply(v: &SlateV4, first: &SlateV4, pe: &PEnv, amount: u64, fee: FeeFie
 	let nonce = PublicKey::from_secret_key(secp, &kr).ok()?;
 	let nonce_sum = PublicKey::from_combination(secp, vec![&mine.nonce, &nonce]).ok()?;
 	let blind_sum = PublicKey::from_combination(secp, vec![&mine.xs, &xs]).ok()?;
-	let msg = KernelFeatures::Plain { fee }.kernel_sig_msg().ok()?;
+	let msg = KernelFeatures::Plain { fee: sig_fee }.kernel_sig_msg().ok()?;
 	let part = aggsig::calculate_partial_sig(secp, &xr, &kr, &nonce_sum, Some(&blind_sum), &msg).ok()?;
 	let mut nv = v.clone();
 	nv.off = off;
@@ -323,7 +349,7 @@ fn split_reply(v: &SlateV4, first: &SlateV4, pe: &PEnv, amount: u64, fee: FeeFie
 	nv.coms = Some(tx.outputs().iter().map(CommitsV4::from).collect());
 	if let Some(p) = nv.proof.as_mut() {
 		let excess = Commitment::from_pubkey(secp, &blind_sum).ok()?;
-		p.rsig = Some(pp_sign(amount, &excess, p.saddr, addr_sk(&pe.recipient.0, pe.recipient.1)));
+		p.rsig = Some(pp_sign(proof_amount, &excess, p.saddr, addr_sk(&pe.recipient.0, pe.recipient.1)));
 	}
 	Some(nv)
 }
@@ -443,6 +469,44 @@ fn apply(mu: &Mu, v: &mut SlateV4, e: &Env) -> bool {
 					Some(x) => Some(x),
 					None => return false,
 				},
+			}
+		}
+		Mu::Dishonest(d) => {
+			if e.flow == Flow::Invoice {
+				return false;
+			}
+			let pe = match e.penv.as_ref() {
+				Some(p) => p,
+				None => return false,
+			};
+			let t = e.fee;
+			let nv = match d {
+				DisV::FeeShift => {
+					let f = FeeFields::new(1, t.fee()).unwrap();
+					resigned_reply(v, &first, pe, &[e.amount], f, e.amount).map(|mut nv| {
+						nv.fee = f;
+						nv
+					})
+				}
+				DisV::FeeRaised => {
+					let d = 7_000_000u64;
+					if e.amount <= d {
+						return false;
+					}
+					let f = FeeFields::new(t.fee_shift() as u64, t.fee() + d).unwrap();
+					resigned_reply(v, &first, pe, &[e.amount - d], f, e.amount).map(|mut nv| {
+						nv.fee = f;
+						nv
+					})
+				}
+				DisV::AmountClaimed => resigned_reply(v, &first, pe, &[e.amount], t, e.amount + 1).map(|mut nv| {
+					nv.amt = e.amount + 1;
+					nv
+				}),
+			};
+			match nv {
+				Some(nv) => *v = nv,
+				None => return false,
 			}
 		}
 		Mu::Com(ComV::SplitRecipientOutput) => {
@@ -915,7 +979,28 @@ fn run_case_inner(w: &World, ex: &Ex, mus: &[Mu], p: &Prep, mutated: &Slate, cha
 				return out;
 			}
 			let mut exp_outputs = exp_change.clone();
-			exp_outputs.push(rw.commit_of(&recs[0]));
+			let deviating = mus.iter().any(|m| matches!(m, Mu::Dishonest(_) | Mu::Com(ComV::SplitRecipientOutput)));
+			if deviating {
+				// a deviating recipient chose its own output(s): they are whatever its reply carried, and (rewound
+				// with the recipient's keychain) must still be worth exactly the agreed amount
+				let rv4 = SlateV4::from(mutated);
+				let routs: Vec<Commitment> = rv4.coms.as_ref().map(|c| c.iter().filter(|x| x.p.is_some()).map(|x| x.c).collect()).unwrap_or_default();
+				let kc = rw.keychain();
+				let builder = crate::core::libtx::proof::ProofBuilder::new(&kc);
+				let mut total = 0u64;
+				for o in tx.outputs().iter().filter(|o| routs.contains(&o.commitment())) {
+					if let Ok(Some((val, _, _))) = crate::core::libtx::proof::rewind(kc.secp(), &builder, o.commitment(), None, o.proof) {
+						total += val;
+					}
+				}
+				if total != ctx.amount {
+					out.problem = problem("recipient-value", format!("the recipient's outputs in the transaction are worth {}, the amount agreed at initiation is {}", total, ctx.amount));
+					return out;
+				}
+				exp_outputs.extend(routs);
+			} else {
+				exp_outputs.push(rw.commit_of(&recs[0]));
+			}
 			if sorted(tx.outputs_committed()) != sorted(exp_outputs.clone()) {
 				out.problem = problem("outputs-mismatch", format!("transaction creates {:?}, expected change + recipient output {:?}", sorted(tx.outputs_committed()), sorted(exp_outputs)));
 				return out;
